@@ -408,7 +408,9 @@ func c19(c *core.Ctx) {
 		// what is saved is the table after the change: the change of the account table precedes the save
 		mut := map[string]string{"Update": "Set", "Delete": "Remove"}[m]
 		var muts []ssax.CallSite
-		for _, cs := range ssax.Calls(f, false, func(ce ssax.Callee) bool { return ce.Func != nil && ce.Func.Name() == mut && strings.Contains(ce.Name, "Indexer") }) {
+		for _, cs := range ssax.Calls(f, false, func(ce ssax.Callee) bool {
+			return ce.Func != nil && ce.Func.Name() == mut && strings.Contains(ce.Name, "Indexer")
+		}) {
 			muts = append(muts, cs)
 		}
 		for i, sv := range saves {
